@@ -114,6 +114,28 @@ type %[1]sInnerT struct {
 	A %[1]sB
 	K int
 %[3]s}
+type %[1]sRows struct {
+	Rows [][]struct {
+		A %[1]sA
+		B %[1]sA
+	}
+	Cube map[string][][]struct {
+		A %[1]sA
+		B %[1]sA
+		C %[1]sA
+	}
+}
+type %[1]sRowsT struct {
+	Rows [][]struct {
+		A %[1]sB
+		B %[1]sB
+	}
+	Cube map[string][][]struct {
+		A %[1]sB
+		B %[1]sB
+		C %[1]sB
+	}
+}
 `, p, sameFields, sameInner)
 	// the extend function
 	params := []string{"s " + p + "A"}
@@ -175,6 +197,8 @@ type %[1]sInnerT struct {
 		{"Direct", p + "A", p + "B"}, {"Ptr", "*" + p + "A", "*" + p + "B"}, {"Slice", "[]" + p + "A", "[]" + p + "B"},
 		{"Map", "map[string]" + p + "A", "map[string]" + p + "B"}, {"MapK", "map[" + p + "A]" + p + "A", "map[" + p + "B]" + p + "B"}, {"Deep", p + "Outer", p + "OuterT"}, {"DeepPtr", "*" + p + "Outer", "*" + p + "OuterT"},
 		{"SliceOfPtr", "[]*" + p + "Outer", "[]*" + p + "OuterT"},
+		// unnamed structs are converted inline: their fields' error paths extend the enclosing path (3 and 4 elements deep)
+		{"Rows", p + "Rows", p + "RowsT"},
 	}
 	for _, m := range methods {
 		if r.Chance(25) {
@@ -781,6 +805,14 @@ type %[1]sOut struct {
 	P    *%[1]sClean
 	Same string
 }
+type %[1]sIn2 struct {
+	Name %[1]sRaw
+	L    []%[1]sRaw
+}
+type %[1]sOut2 struct {
+	Name %[1]sClean
+	L    []%[1]sClean
+}
 `, p)
 	params, args := "s string", "s"
 	doc := ""
@@ -814,7 +846,7 @@ type %[1]sOut struct {
 		b.WriteString("\t// goverter:context ctxTag\n\tWithCtx(source " + p + "In, ctxTag string) " + res(p+"Out") + "\n")
 		if r.Chance(50) {
 			// the context is NOT available here: generation must fail (the function exists but cannot be called)
-			b.WriteString("\tNoCtx(source " + p + "In) " + res(p+"Out") + "\n")
+			b.WriteString("\tNoCtx(source " + p + "In2) " + res(p+"Out2") + "\n")
 		}
 	} else {
 		b.WriteString("\tConvert(source " + p + "In) " + res(p+"Out") + "\n")
